@@ -7,6 +7,16 @@ use std::panic::{catch_unwind, AssertUnwindSafe};
 
 thread_local! {
     pub static LAST_PANIC: RefCell<Option<String>> = RefCell::new(None);
+    /// > 0 while a panic of the code under test is expected to be caught (message is captured,
+    /// not printed); a panic of the harness itself is printed
+    pub static QUIET: std::cell::Cell<u32> = std::cell::Cell::new(0);
+}
+
+pub fn quietly<T>(f: impl FnOnce() -> T) -> std::thread::Result<T> {
+    QUIET.with(|q| q.set(q.get() + 1));
+    let r = catch_unwind(AssertUnwindSafe(f));
+    QUIET.with(|q| q.set(q.get() - 1));
+    r
 }
 
 pub fn install_panic_hook() {
@@ -19,6 +29,9 @@ pub fn install_panic_hook() {
             "<non-string panic>".to_string()
         };
         let loc = info.location().map(|l| format!("{}:{}", l.file(), l.line())).unwrap_or_default();
+        if QUIET.with(|q| q.get()) == 0 {
+            eprintln!("harness panic: {} @ {}", msg, loc);
+        }
         LAST_PANIC.with(|p| *p.borrow_mut() = Some(format!("{} @ {}", msg, loc)));
     }));
 }
@@ -34,7 +47,7 @@ pub struct ImplOut {
 
 pub fn run_parse<'s, I: Kind<'s>, R: Er<'s, I>>(p: &BP<'s, I, R>, input: I) -> ImplOut {
     let mut st = Insp::default();
-    let r = catch_unwind(AssertUnwindSafe(|| p.parse_with_state(input, &mut st).into_output_errors()));
+    let r = quietly(|| p.parse_with_state(input, &mut st).into_output_errors());
     match r {
         Ok((out, errs)) => ImplOut {
             has_output: out.is_some(),
@@ -55,7 +68,7 @@ pub fn run_parse<'s, I: Kind<'s>, R: Er<'s, I>>(p: &BP<'s, I, R>, input: I) -> I
 
 pub fn run_check<'s, I: Kind<'s>, R: Er<'s, I>>(p: &BP<'s, I, R>, input: I) -> ImplOut {
     let mut st = Insp::default();
-    let r = catch_unwind(AssertUnwindSafe(|| p.check_with_state(input, &mut st).into_output_errors()));
+    let r = quietly(|| p.check_with_state(input, &mut st).into_output_errors());
     match r {
         Ok((out, errs)) => ImplOut {
             has_output: out.is_some(),
